@@ -792,8 +792,6 @@ class FunctionEngine(CallsMixin, Engine):
         return True
 
     def s_For(self, s, st):
-        if s.orelse:
-            raise Unsupported('for/else')
         sig, spec = self.loop_contract(s)
         itv = self.eval(s.iter, st)
         m = self.iter_model(itv, st)
@@ -851,7 +849,8 @@ class FunctionEngine(CallsMixin, Engine):
         b.assume(k == n)
         b.trace.append(f'L{s.lineno - self.line0}exit')
         if self.feasible(b):
-            out.append((b, NORMAL))
+            # for/else: the else block runs when the loop ends without `break`
+            out += self.exec_block(s.orelse, b) if s.orelse else [(b, NORMAL)]
         return out
 
     def for_set(self, s, st, m, sig, spec):
@@ -891,6 +890,11 @@ class FunctionEngine(CallsMixin, Engine):
             else:
                 item = self.unbox(sv.ty.args[1], T.Sel(T.dict_val(sv.ty, d0), x), a)
             self.bind_target(s.target, item, a)
+            if spec and pname != '_P':
+                # the set of processed elements is visible to the contracts of nested loops
+                if pname in a.env:
+                    raise Unsupported(f'loop ghost name {pname} clashes with a program variable')
+                a.env[pname] = V(pty, P)
             for (cur, o) in self.exec_block(s.body, a):
                 if o.kind in ('normal', 'continue'):
                     self.check_invs(cur, spec, 'inv-step', sig, {pname: V(pty, z3.Store(P, x, z3.BoolVal(True)))}, pre)
@@ -902,7 +906,7 @@ class FunctionEngine(CallsMixin, Engine):
         b.assume(z3.ForAll([e], T.Sel(P, e) == T.Sel(dom0, e)))
         b.trace.append(f'L{s.lineno - self.line0}exit')
         if self.feasible(b):
-            out.append((b, NORMAL))
+            out += self.exec_block(s.orelse, b) if s.orelse else [(b, NORMAL)]
         return out
 
     def s_While(self, s, st):
